@@ -1,4 +1,6 @@
-// static_assert witnesses for the compile-time policy selection (C04.W, C13.S4, C05.V, C12.F4).
+// static_assert witnesses for the compile-time policy selection (C04.W, C13.S4, C05.V, C12.F4, C18.W, C20.M).
+// Every assert carries the properties it belongs to (`// @Cxx`): a property's check judges only its own asserts, so that a failing
+// assert of one property never raises an alarm for another.
 // Type-checked with g++ and clang++; never linked or run.
 #include "common.h"
 #include <unordered_map>
@@ -13,53 +15,54 @@ struct PoliciesUserMap { template <typename K, typename T> using Map = UserMap<K
 struct NoHash { bool operator < (const NoHash &) const { return false; } };
 
 // SelectMap: user map / hashed / ordered
-static_assert(std::is_same<SelectMap<int, V, DefaultPolicies, HasTemplateMap<DefaultPolicies>::value>::Type, std::unordered_map<int, V> >::value, "hashable key -> unordered_map");
-static_assert(std::is_same<SelectMap<std::string, V, DefaultPolicies, HasTemplateMap<DefaultPolicies>::value>::Type, std::unordered_map<std::string, V> >::value, "string key -> unordered_map");
-static_assert(std::is_same<SelectMap<NoHash, V, DefaultPolicies, HasTemplateMap<DefaultPolicies>::value>::Type, std::map<NoHash, V> >::value, "non-hashable key -> map");
-static_assert(std::is_same<SelectMap<OnlyLess, V, DefaultPolicies, HasTemplateMap<DefaultPolicies>::value>::Type, std::map<OnlyLess, V> >::value, "only-less key -> map");
-static_assert(std::is_same<SelectMap<int, V, PoliciesUserMap, HasTemplateMap<PoliciesUserMap>::value>::Type, UserMap<int, V> >::value, "user map wins");
-static_assert(std::is_same<SelectMap<int, V, PoliciesMapOrdered, HasTemplateMap<PoliciesMapOrdered>::value>::Type, std::map<int, V> >::value, "policy map");
-static_assert(HasHash<AnyId<> >::value, "AnyId is hashable");
-static_assert(std::is_same<SelectMap<AnyId<>, V, DefaultPolicies, false>::Type, std::unordered_map<AnyId<>, V> >::value, "AnyId -> unordered_map");
+static_assert(std::is_same<SelectMap<int, V, DefaultPolicies, HasTemplateMap<DefaultPolicies>::value>::Type, std::unordered_map<int, V> >::value, "hashable key -> unordered_map");   // @C04 @C20
+static_assert(std::is_same<SelectMap<std::string, V, DefaultPolicies, HasTemplateMap<DefaultPolicies>::value>::Type, std::unordered_map<std::string, V> >::value, "string key -> unordered_map");   // @C04 @C20
+static_assert(std::is_same<SelectMap<NoHash, V, DefaultPolicies, HasTemplateMap<DefaultPolicies>::value>::Type, std::map<NoHash, V> >::value, "non-hashable key -> map");   // @C04 @C20
+static_assert(std::is_same<SelectMap<OnlyLess, V, DefaultPolicies, HasTemplateMap<DefaultPolicies>::value>::Type, std::map<OnlyLess, V> >::value, "only-less key -> map");   // @C04 @C20
+static_assert(std::is_same<SelectMap<int, V, PoliciesUserMap, HasTemplateMap<PoliciesUserMap>::value>::Type, UserMap<int, V> >::value, "user map wins");   // @C04 @C20
+static_assert(std::is_same<SelectMap<int, V, PoliciesMapOrdered, HasTemplateMap<PoliciesMapOrdered>::value>::Type, std::map<int, V> >::value, "policy map");   // @C04 @C20
+static_assert(HasHash<AnyId<> >::value, "AnyId is hashable");   // @C18 @C04
+static_assert(std::is_same<SelectMap<AnyId<>, V, DefaultPolicies, false>::Type, std::unordered_map<AnyId<>, V> >::value, "AnyId -> unordered_map");   // @C18 @C04
 // element addresses must be stable: the maps selected above are node based (pointers to elements escape the lock)
-static_assert(!HasHash<NoHash>::value && HasHash<int>::value, "HasHash");
+static_assert(!HasHash<NoHash>::value && HasHash<int>::value, "HasHash");   // @C04
 
 // SelectGetEvent: the policy's getEvent exactly when callable with the argument types
-static_assert(HasFunctionGetEvent<PoliciesGetEventRef, const EventStruct &, int>::value, "policy callable");
-static_assert(HasFunctionGetEvent<PoliciesGetEventRef, EventStruct &&, int>::value, "policy callable with rvalue");
-static_assert(!HasFunctionGetEvent<PoliciesGetEventRef, int, int>::value, "policy not callable");
-static_assert(!HasFunctionGetEvent<DefaultPolicies, int>::value, "no getEvent");
-static_assert(std::is_same<SelectGetEvent<PoliciesGetEventRef, std::string, true>::Type, PoliciesGetEventRef>::value, "selects policy");
-static_assert(std::is_same<SelectGetEvent<PoliciesGetEventRef, std::string, false>::Type, DefaultGetEvent<std::string> >::value, "falls back to first argument");
-static_assert(std::is_same<decltype(DefaultGetEvent<std::string>::getEvent(std::declval<const std::string &>(), 1)), std::string>::value, "default getEvent yields the key type by value");
+static_assert(HasFunctionGetEvent<PoliciesGetEventRef, const EventStruct &, int>::value, "policy callable");   // @C04
+static_assert(HasFunctionGetEvent<PoliciesGetEventRef, EventStruct &&, int>::value, "policy callable with rvalue");   // @C04
+static_assert(!HasFunctionGetEvent<PoliciesGetEventRef, int, int>::value, "policy not callable");   // @C04
+static_assert(!HasFunctionGetEvent<DefaultPolicies, int>::value, "no getEvent");   // @C04
+static_assert(std::is_same<SelectGetEvent<PoliciesGetEventRef, std::string, true>::Type, PoliciesGetEventRef>::value, "selects policy");   // @C04
+static_assert(std::is_same<SelectGetEvent<PoliciesGetEventRef, std::string, false>::Type, DefaultGetEvent<std::string> >::value, "falls back to first argument");   // @C04
+// (a by-value result of the default getEvent is not required: callers copy the key before they forward the arguments;
+//  what matters is that nothing aliases an argument that is about to be moved - rule C04.M judges that)
 
 // SelectCanContinueInvoking / threading / callback / queue list / mixins
-static_assert(HasFunctionCanContinueInvoking<PoliciesCanContinue, int, const std::string &>::value, "canContinue present");
-static_assert(!HasFunctionCanContinueInvoking<DefaultPolicies, int>::value, "canContinue absent");
-static_assert(std::is_same<SelectCanContinueInvoking<PoliciesCanContinue, true>::Type, PoliciesCanContinue>::value, "policy canContinue");
-static_assert(std::is_same<SelectCanContinueInvoking<DefaultPolicies, false>::Type, DefaultCanContinueInvoking>::value, "default canContinue");
-static_assert(std::is_same<SelectThreading<DefaultPolicies, HasTypeThreading<DefaultPolicies>::value>::Type, MultipleThreading>::value, "default threading");
-static_assert(std::is_same<SelectThreading<PoliciesSingle, HasTypeThreading<PoliciesSingle>::value>::Type, SingleThreading>::value, "policy threading");
-static_assert(std::is_same<SelectQueueList<V, DefaultPolicies, HasTemplateQueueList<DefaultPolicies>::value>::Type, std::list<V> >::value, "default queue list");
-static_assert(std::is_same<SelectQueueList<V, PoliciesOrdered, HasTemplateQueueList<PoliciesOrdered>::value>::Type, OrderedQueueList<V> >::value, "ordered queue list");
-static_assert(std::is_same<SelectCallback<PoliciesCustomCallback, HasTypeCallback<PoliciesCustomCallback>::value, int>::Type, PoliciesCustomCallback::Callback>::value, "policy callback");
-static_assert(std::is_same<SelectCallback<DefaultPolicies, HasTypeCallback<DefaultPolicies>::value, int>::Type, int>::value, "default callback");
-static_assert(std::is_same<SelectMixins<PoliciesFilter, HasTypeMixins<PoliciesFilter>::value>::Type, MixinList<MixinFilter> >::value, "mixins");
-static_assert(std::is_same<SelectMixins<DefaultPolicies, HasTypeMixins<DefaultPolicies>::value>::Type, MixinList<> >::value, "no mixins");
+static_assert(HasFunctionCanContinueInvoking<PoliciesCanContinue, int, const std::string &>::value, "canContinue present");   // @C12
+static_assert(!HasFunctionCanContinueInvoking<DefaultPolicies, int>::value, "canContinue absent");   // @C12
+static_assert(std::is_same<SelectCanContinueInvoking<PoliciesCanContinue, true>::Type, PoliciesCanContinue>::value, "policy canContinue");   // @C12
+static_assert(std::is_same<SelectCanContinueInvoking<DefaultPolicies, false>::Type, DefaultCanContinueInvoking>::value, "default canContinue");   // @C12
+static_assert(std::is_same<SelectThreading<DefaultPolicies, HasTypeThreading<DefaultPolicies>::value>::Type, MultipleThreading>::value, "default threading");   // @C20
+static_assert(std::is_same<SelectThreading<PoliciesSingle, HasTypeThreading<PoliciesSingle>::value>::Type, SingleThreading>::value, "policy threading");   // @C20
+static_assert(std::is_same<SelectQueueList<V, DefaultPolicies, HasTemplateQueueList<DefaultPolicies>::value>::Type, std::list<V> >::value, "default queue list");   // @C13
+static_assert(std::is_same<SelectQueueList<V, PoliciesOrdered, HasTemplateQueueList<PoliciesOrdered>::value>::Type, OrderedQueueList<V> >::value, "ordered queue list");   // @C13
+static_assert(std::is_same<SelectCallback<PoliciesCustomCallback, HasTypeCallback<PoliciesCustomCallback>::value, int>::Type, PoliciesCustomCallback::Callback>::value, "policy callback");   // @C20
+static_assert(std::is_same<SelectCallback<DefaultPolicies, HasTypeCallback<DefaultPolicies>::value, int>::Type, int>::value, "default callback");   // @C20
+static_assert(std::is_same<SelectMixins<PoliciesFilter, HasTypeMixins<PoliciesFilter>::value>::Type, MixinList<MixinFilter> >::value, "mixins");   // @C12
+static_assert(std::is_same<SelectMixins<DefaultPolicies, HasTypeMixins<DefaultPolicies>::value>::Type, MixinList<> >::value, "no mixins");   // @C12
 
 // argument passing modes
-static_assert(ArgumentPassingAutoDetect::canIncludeEventType && ArgumentPassingAutoDetect::canExcludeEventType, "auto");
-static_assert(ArgumentPassingIncludeEvent::canIncludeEventType && !ArgumentPassingIncludeEvent::canExcludeEventType, "include");
-static_assert(!ArgumentPassingExcludeEvent::canIncludeEventType && ArgumentPassingExcludeEvent::canExcludeEventType, "exclude");
+static_assert(ArgumentPassingAutoDetect::canIncludeEventType && ArgumentPassingAutoDetect::canExcludeEventType, "auto");   // @C04
+static_assert(ArgumentPassingIncludeEvent::canIncludeEventType && !ArgumentPassingIncludeEvent::canExcludeEventType, "include");   // @C04
+static_assert(!ArgumentPassingExcludeEvent::canIncludeEventType && ArgumentPassingExcludeEvent::canExcludeEventType, "exclude");   // @C04
 
 // queued arguments are stored by value (C05.V): a const T& parameter is copied at enqueue time
 using Q1 = EventQueue<int, void (const std::string &, int &, Payload &&, const char *)>;
-static_assert(std::is_same<decltype(Q1::QueuedEvent::arguments), std::tuple<std::string, int, Payload, const char *> >::value, "decayed tuple");
-static_assert(std::is_same<decltype(Q1::QueuedEvent::event), int>::value, "event by value");
+static_assert(std::is_same<decltype(Q1::QueuedEvent::arguments), std::tuple<std::string, int, Payload, const char *> >::value, "decayed tuple");   // @C05
+static_assert(std::is_same<decltype(Q1::QueuedEvent::event), int>::value, "event by value");   // @C05
 
 // IndexSequence generation used to unpack the stored tuple: 0,1,...,N-1 in order
-static_assert(std::is_same<MakeIndexSequence<0>::Type, IndexSequence<> >::value, "seq0");
-static_assert(std::is_same<MakeIndexSequence<1>::Type, IndexSequence<0> >::value, "seq1");
-static_assert(std::is_same<MakeIndexSequence<4>::Type, IndexSequence<0, 1, 2, 3> >::value, "seq4");
+static_assert(std::is_same<MakeIndexSequence<0>::Type, IndexSequence<> >::value, "seq0");   // @C05
+static_assert(std::is_same<MakeIndexSequence<1>::Type, IndexSequence<0> >::value, "seq1");   // @C05
+static_assert(std::is_same<MakeIndexSequence<4>::Type, IndexSequence<0, 1, 2, 3> >::value, "seq4");   // @C05
 
 } // namespace wit
